@@ -257,7 +257,7 @@ func animDoc(rule string, must []string) PropDoc {
 }
 
 func (propC08) Describe() PropDoc {
-	return animDoc("one run = one seeded history of 1-8 AddFrame calls on the lossless animation encoder (frame i derived from frame i-1 by: no change, one pixel, small rectangle at odd offsets, >=90 % changed, alpha-only change, two far-apart pixels with unchanged semi-transparent neighbours in between, an image smaller than the canvas; durations incl. 0 and 2^24-1; Kmin/Kmax incl. disabled and every-frame) then Close, then playback. distinct = distinct (spec, explored-world trace hash); non-trivial = at least two AddFrame calls.",
+	return animDoc("one run = one seeded history of 1-8 AddFrame calls on the lossless animation encoder (frame i derived from frame i-1 by: no change, one pixel, small rectangle at odd offsets, >=90 % changed, alpha-only change, two far-apart pixels with unchanged semi-transparent neighbours in between, the two opposite corner pixels, scattered pixels and a rectangle wiped to transparent, a return to the picture before the previous one, an image smaller than the canvas; inputs as NRGBA, RGBA, NRGBA64 and sub-image views; durations incl. 0 and 2^24-1; Kmin/Kmax incl. disabled and every-frame) then Close, then playback. distinct = distinct (spec, explored-world trace hash); non-trivial = at least two AddFrame calls.",
 		[]string{"animations_with_2+_pictures_verified", "stored_frames_blend", "stored_frames_dispose_background", "stored_subframes_with_offset", "mut_semi", "mut_same", "background_candidate_failure", "close_fault_surfaced_as_error"})
 }
 
@@ -351,6 +351,6 @@ func (propC18) Execute(pp any, x *X) *Violation {
 }
 
 func (propC18) Describe() PropDoc {
-	return animDoc("one run = one seeded history of 1-8 AddFrame calls (90 % with binary or graded transparency) on the animation encoder in lossy mode or mixed-codec mode (50 %), then Close and playback; the alpha plane of every played-back canvas must equal the alpha plane of the corresponding input. distinct = distinct (spec, explored-world trace hash); non-trivial = at least two AddFrame calls.",
+	return animDoc("one run = one seeded history of 1-8 AddFrame calls (90 % with binary or graded transparency; same frame mutations as C08 incl. corners / erase / toggle) on the animation encoder in lossy mode or mixed-codec mode (50 %), then Close and playback; the alpha plane of every played-back canvas must equal the alpha plane of the corresponding input. distinct = distinct (spec, explored-world trace hash); non-trivial = at least two AddFrame calls.",
 		[]string{"animations_alpha_verified_lossy", "animations_alpha_verified_mixed", "animations_with_transparency_verified", "alternate_codec_failure"})
 }
